@@ -230,6 +230,9 @@ func ruleNodeLayer(c *Ctx) {
 								relinked = true
 							}
 						}
+						if c.relinkCall(earlier) {
+							relinked = true
+						}
 					}
 					if inHelper {
 						c.r.ok("R24", base+" released after the slot is relinked", m.pos(call.Pos()), "release helper: the relink is required at each of its call sites", append(props, "C11")...)
@@ -329,6 +332,21 @@ func ruleNodeLayer(c *Ctx) {
 								ast.Inspect(e, func(z ast.Node) bool {
 									if se, ok := z.(*ast.SelectorExpr); ok && se.Sel.Name == field && identVar(info, se.X) == v {
 										found = true
+									}
+									// v.occupied(): a method of the node that reads the field of its receiver (an
+									// iterator over the occupied slots)
+									if call, ok := z.(*ast.CallExpr); ok && !found && depth < 4 {
+										if sel, ok := call.Fun.(*ast.SelectorExpr); ok && identVar(info, sel.X) == v {
+											if cu := m.calleeUnit(call); cu != nil && cu.Body != nil && cu.Decl != nil && cu.Decl.Recv != nil && len(cu.Decl.Recv.List) == 1 && len(cu.Decl.Recv.List[0].Names) == 1 {
+												rv, _ := info.Defs[cu.Decl.Recv.List[0].Names[0]].(*types.Var)
+												ast.Inspect(cu.Body, func(w ast.Node) bool {
+													if se, ok := w.(*ast.SelectorExpr); ok && se.Sel.Name == field && rv != nil && identVar(info, se.X) == rv {
+														found = true
+													}
+													return !found
+												})
+											}
+										}
 									}
 									// a local bound once to an expression that reads the field
 									if id, ok := z.(*ast.Ident); ok && depth < 4 && !found {
@@ -432,9 +450,46 @@ func ruleNodeLayer(c *Ctx) {
 								if id == nil {
 									return nil
 								}
-								a := argFor(hc, m.paramIndex(cu, id))
+								pidx := m.paramIndex(cu, id)
+								if pidx == -1 {
+									// n := ref.node() after *ref = nodeRef{pointer: ptr, …}: the node behind the
+									// pointer parameter
+									if d := m.resolveLocal(cu, id); d != nil {
+										if nc, ok := ast.Unparen(d).(*ast.CallExpr); ok {
+											if ns, ok := nc.Fun.(*ast.SelectorExpr); ok && ns.Sel.Name == "node" && len(nc.Args) == 0 {
+												slot := identVar(info, ns.X)
+												ast.Inspect(cu.Body, func(z ast.Node) bool {
+													as, ok := z.(*ast.AssignStmt)
+													if !ok || len(as.Lhs) != 1 || len(as.Rhs) != 1 {
+														return true
+													}
+													st, ok := ast.Unparen(as.Lhs[0]).(*ast.StarExpr)
+													if !ok || identVar(info, st.X) != slot || slot == nil {
+														return true
+													}
+													if _, ptr, ok := c.refLitTagAny(as.Rhs[0]); ok && ptr != nil {
+														if pid, ok := ast.Unparen(ptr).(*ast.Ident); ok {
+															if k := m.paramIndex(cu, pid); k != -1 {
+																id, pidx = pid, k
+															}
+														}
+													}
+													return true
+												})
+											}
+										}
+									}
+								}
+								a := argFor(hc, pidx)
 								if a == nil {
 									return nil
+								}
+								for {
+									if cv, ok := ast.Unparen(a).(*ast.CallExpr); ok && isConversion(info, cv) && len(cv.Args) == 1 {
+										a = cv.Args[0]
+										continue
+									}
+									break
 								}
 								if ue, ok := ast.Unparen(a).(*ast.UnaryExpr); ok && ue.Op == token.AND {
 									a = ue.X
@@ -542,6 +597,9 @@ func ruleNodeLayer(c *Ctx) {
 							if op, _, isP := c.poolCall(call); isP && op == "Put" {
 								hasPut = true
 							}
+						}
+						if c.relinkCall(x) {
+							hasRelink = true
 						}
 					}
 				}
@@ -689,15 +747,12 @@ func ruleNodeLayer(c *Ctx) {
 				}
 				op := be.Op
 				x, y := stripConv(be.X), stripConv(be.Y)
-				if _, isSel := y.(*ast.SelectorExpr); isSel {
+				if ys, isSel := y.(*ast.SelectorExpr); isSel && ys.Sel.Name == "childrenLen" {
 					x, y = y, x
 					op = map[token.Token]token.Token{token.LSS: token.GTR, token.GTR: token.LSS, token.LEQ: token.GEQ, token.GEQ: token.LEQ, token.EQL: token.EQL, token.NEQ: token.NEQ}[op]
 				}
 				sel, isSel := x.(*ast.SelectorExpr)
-				tv, has := info.Types[be.Y]
-				if be.Y != y {
-					tv, has = info.Types[be.X]
-				}
+				tv, has := info.Types[y]
 				if !isSel || sel.Sel.Name != "childrenLen" || !has || tv.Value == nil {
 					return true
 				}
@@ -743,7 +798,7 @@ func ruleNodeLayer(c *Ctx) {
 				}
 				op := be.Op
 				x, y := stripC(be.X), stripC(be.Y)
-				if _, isSel := y.(*ast.SelectorExpr); isSel {
+				if ys, isSel := y.(*ast.SelectorExpr); isSel && ys.Sel.Name == "childrenLen" {
 					x, y = y, x
 					op = map[token.Token]token.Token{token.LSS: token.GTR, token.GTR: token.LSS, token.LEQ: token.GEQ, token.GEQ: token.LEQ, token.EQL: token.EQL, token.NEQ: token.NEQ}[op]
 				}
@@ -793,13 +848,13 @@ func ruleNodeLayer(c *Ctx) {
 					if okStore {
 						c.r.ok("R22", key, m.pos(as.Pos()), fmt.Sprintf("dominated by childrenLen < %d", k.Cap), "C11", "C10", "C01")
 					} else {
-						c.r.bad("R22", key, m.pos(as.Pos()), fmt.Sprintf("a child is stored into the %d-slot array on a path that is not dominated by a test that the fill count is below %d: the branch that stores in place and the branch that grows are swapped, or the guard is missing", k.Cap, k.Cap), "C11", "C10", "C01")
+						c.r.bad("R22", key, m.pos(as.Pos()), fmt.Sprintf("a child is stored into the %d-slot array on a path that is not dominated by a test that the fill count is below %d: the branch that stores in place and the branch that grows are swapped, or the guard is missing (a node that grows on another condition than a full array enters the bigger class below that class's shrink threshold and is never shrunk again: memory follows the history)", k.Cap, k.Cap), "C11", "C10", "C01", "C17")
 					}
 				}
 			}
 		}
 		if t.grow == -1 && k.Cap < 256 && m.ByName[k.Struct.Obj().Name()+".addChild"] != nil {
-			c.r.undecided("R22", k.Struct.Obj().Name()+".addChild capacity guard equals len(children)", m.pos(m.ByName[k.Struct.Obj().Name()+".addChild"].Decl.Pos()), "no guard of the form childrenLen < C found before a child is stored", "C11", "C10")
+			c.r.undecided("R22", k.Struct.Obj().Name()+".addChild capacity guard equals len(children)", m.pos(m.ByName[k.Struct.Obj().Name()+".addChild"].Decl.Pos()), "no guard of the form childrenLen < C found before a child is stored", "C11", "C10", "C17")
 		}
 		if du := m.ByName[k.Struct.Obj().Name()+".deleteChild"]; du != nil {
 			ast.Inspect(du.Body, func(n ast.Node) bool {
@@ -888,6 +943,36 @@ func ruleNodeLayer(c *Ctx) {
 			c.r.bad("R22", key, m.pos(plen.Pos()), fmt.Sprintf("%s is %s (%d bytes) but keys are up to %d-byte lengths (%s): the recorded compressed-path length wraps when keys share a longer prefix, and the descent then consumes the wrong number of key bytes", plen.Name(), plen.Type(), c.L.Sizes.Sizeof(plen.Type()), maxLeaf, leafField), "C11", "C01")
 		}
 	}
+	// the key-length field of a leaf holds the length of every key of its tree kind: keys of the
+	// numeric kinds are at most 8 bytes long, the others (byte strings, sort keys, user-encoded
+	// compound keys) have no bound below what a 32-bit length counts
+	for _, tk := range m.Trees {
+		if tk.Leaf == nil {
+			continue
+		}
+		ls, ok := tk.Leaf.Origin().Underlying().(*types.Struct)
+		if !ok {
+			continue
+		}
+		fixed := false
+		if named := namedOf(tk.CodecType); named != nil && c.numericCodec(named.Origin()) {
+			fixed = true
+		}
+		for i := 0; i < ls.NumFields(); i++ {
+			f := ls.Field(i)
+			if !isIntType(f.Type()) || !strings.Contains(strings.ToLower(f.Name()), "len") {
+				continue
+			}
+			bits := 8 * c.L.Sizes.Sizeof(f.Type())
+			key := fmt.Sprintf("%s.%s can hold the length of every key of %s", tk.Leaf.Origin().Obj().Name(), f.Name(), tk.Name)
+			switch {
+			case fixed || bits >= 32:
+				c.r.ok("R22", key, m.pos(f.Pos()), fmt.Sprintf("%d-bit length; keys of this kind are %s", bits, map[bool]string{true: "at most 8 bytes", false: "of any length"}[fixed]), "C01", "C06", "C09", "C11")
+			default:
+				c.r.bad("R22", key, m.pos(f.Pos()), fmt.Sprintf("the leaf records the key length in %d bits but the keys of %s have no such bound: the length of a key of %d bytes or more wraps, the stored key compares unequal to itself, and Insert of a present key splits the leaf instead of replacing the value (Size counts it twice, the old pair is lost)", bits, tk.Name, int64(1)<<uint(bits)), "C01", "C06", "C09", "C11")
+			}
+		}
+	}
 	c.r.floor("R22", 3, "capacity constants", "C11")
 
 	// ------------------------------------------------------------------ R37 SLOTALLOC
@@ -930,92 +1015,137 @@ func ruleNodeLayer(c *Ctx) {
 		}
 		slotKind, slotPos := "", au.Decl.Pos()
 		scansFree := false
-		ast.Inspect(au.Body, func(n ast.Node) bool {
-			if f, ok := n.(*ast.ForStmt); ok && f.Cond != nil {
-				if strings.Contains(types.ExprString(f.Cond), ".pointer") && strings.Contains(types.ExprString(f.Cond), "children") {
-					scansFree = true
-				}
-			}
-			as, ok := n.(*ast.AssignStmt)
-			if !ok || len(as.Lhs) != 1 || len(as.Rhs) != 1 || identVar(info, as.Rhs[0]) != childParam || childParam == nil {
-				return true
-			}
-			ie, ok := ast.Unparen(as.Lhs[0]).(*ast.IndexExpr)
-			if !ok || !strings.HasSuffix(types.ExprString(ie.X), "children") {
-				return true
-			}
-			slotPos = as.Pos()
-			iv := identVar(info, ie.Index)
-			switch {
-			case iv != nil && c.enclosingParam(au, iv):
-				slotKind = "byte-indexed"
-			case iv != nil:
-				dense := false
-				ast.Inspect(au.Body, func(z ast.Node) bool {
-					if as2, ok := z.(*ast.AssignStmt); ok {
-						for i, l := range as2.Lhs {
-							if identVar(info, l) == iv && i < len(as2.Rhs) && strings.Contains(types.ExprString(as2.Rhs[i]), "childrenLen") {
-								dense = true
-							}
-						}
-					}
+		// the store may live in a helper addChild hands the child to (insertChild(b, child))
+		type slotSite struct {
+			u     *FuncUnit
+			child *types.Var
+		}
+		sites := []slotSite{{au, childParam}}
+		if childParam != nil {
+			ast.Inspect(au.Body, func(n ast.Node) bool {
+				call, ok := n.(*ast.CallExpr)
+				if !ok {
 					return true
-				})
-				if dense {
-					slotKind = "dense"
-				} else {
-					slotKind = "computed"
 				}
-			default:
-				if strings.Contains(types.ExprString(ie.Index), "childrenLen") {
-					slotKind = "dense"
-				} else {
-					slotKind = "computed"
+				cu := m.calleeUnit(call)
+				if cu == nil || cu.Lit != nil || cu.Decl == nil || cu.Body == nil || cu == au || cu.Type.Params == nil {
+					return true
 				}
-			}
-			return true
-		})
-		// the free-slot scan starts at the first slot: a scan that starts later never reuses the
-		// slots before its start, and runs off the array when only those are free
-		ast.Inspect(au.Body, func(n ast.Node) bool {
-			f, ok := n.(*ast.ForStmt)
-			if !ok || f.Cond == nil || f.Init != nil || !strings.Contains(types.ExprString(f.Cond), ".pointer") || !strings.Contains(types.ExprString(f.Cond), "children") {
-				return true
-			}
-			var iv *types.Var
-			ast.Inspect(f.Cond, func(z ast.Node) bool {
-				if ie, ok := z.(*ast.IndexExpr); ok && strings.HasSuffix(types.ExprString(ie.X), "children") {
-					iv = identVar(info, ie.Index)
+				// a helper of the same size class: a method of the node struct, or a function that
+				// is given the node
+				same := cu.Recv == k.Struct.Obj().Name()
+				for _, a := range call.Args {
+					if nt := namedOf(info.TypeOf(a)); nt != nil && nt.Origin().Obj() == k.Struct.Obj() {
+						same = true
+					}
+				}
+				if !same {
+					return true
+				}
+				var ps []*types.Var
+				for _, f := range cu.Type.Params.List {
+					for _, nm := range f.Names {
+						v, _ := info.Defs[nm].(*types.Var)
+						ps = append(ps, v)
+					}
+				}
+				for i, a := range call.Args {
+					if identVar(info, a) == childParam && i < len(ps) && ps[i] != nil {
+						sites = append(sites, slotSite{cu, ps[i]})
+					}
 				}
 				return true
 			})
-			if iv == nil {
-				return true
-			}
-			def := singleDefBefore(info, au.Body, iv, f.Pos())
-			if def == nil {
-				return true
-			}
-			d := ast.Unparen(def)
-			for {
-				cv, ok := d.(*ast.CallExpr)
-				if !ok || !isConversion(info, cv) || len(cv.Args) != 1 {
-					break
+		}
+		for _, site := range sites {
+			au, childParam := site.u, site.child
+			ast.Inspect(au.Body, func(n ast.Node) bool {
+				if f, ok := n.(*ast.ForStmt); ok && f.Cond != nil {
+					if strings.Contains(types.ExprString(f.Cond), ".pointer") && strings.Contains(types.ExprString(f.Cond), "children") {
+						scansFree = true
+					}
 				}
-				d = ast.Unparen(cv.Args[0])
-			}
-			tv, isConst := info.Types[d]
-			if !isConst || tv.Value == nil {
+				as, ok := n.(*ast.AssignStmt)
+				if !ok || len(as.Lhs) != 1 || len(as.Rhs) != 1 || identVar(info, as.Rhs[0]) != childParam || childParam == nil {
+					return true
+				}
+				ie, ok := ast.Unparen(as.Lhs[0]).(*ast.IndexExpr)
+				if !ok || !strings.HasSuffix(types.ExprString(ie.X), "children") {
+					return true
+				}
+				slotPos = as.Pos()
+				iv := identVar(info, ie.Index)
+				switch {
+				case iv != nil && c.enclosingParam(au, iv):
+					slotKind = "byte-indexed"
+				case iv != nil:
+					dense := false
+					ast.Inspect(au.Body, func(z ast.Node) bool {
+						if as2, ok := z.(*ast.AssignStmt); ok {
+							for i, l := range as2.Lhs {
+								if identVar(info, l) == iv && i < len(as2.Rhs) && strings.Contains(types.ExprString(as2.Rhs[i]), "childrenLen") {
+									dense = true
+								}
+							}
+						}
+						return true
+					})
+					if dense {
+						slotKind = "dense"
+					} else {
+						slotKind = "computed"
+					}
+				default:
+					if strings.Contains(types.ExprString(ie.Index), "childrenLen") {
+						slotKind = "dense"
+					} else {
+						slotKind = "computed"
+					}
+				}
 				return true
-			}
-			k2 := k.Struct.Obj().Name() + " free-slot scan starts at the first slot"
-			if tv.Value.ExactString() == "0" {
-				c.r.ok("R37", k2, m.pos(f.Pos()), iv.Name()+" starts at 0", "C10", "C01", "C11")
-			} else {
-				c.r.bad("R37", k2, m.pos(def.Pos()), fmt.Sprintf("the scan for a free child slot starts at slot %s: the slots before it are never reused, and when they are the only free ones the scan runs off the children array (index out of range on an insert after deletes)", tv.Value.ExactString()), "C10", "C01", "C11")
-			}
-			return true
-		})
+			})
+			// the free-slot scan starts at the first slot: a scan that starts later never reuses the
+			// slots before its start, and runs off the array when only those are free
+			ast.Inspect(au.Body, func(n ast.Node) bool {
+				f, ok := n.(*ast.ForStmt)
+				if !ok || f.Cond == nil || f.Init != nil || !strings.Contains(types.ExprString(f.Cond), ".pointer") || !strings.Contains(types.ExprString(f.Cond), "children") {
+					return true
+				}
+				var iv *types.Var
+				ast.Inspect(f.Cond, func(z ast.Node) bool {
+					if ie, ok := z.(*ast.IndexExpr); ok && strings.HasSuffix(types.ExprString(ie.X), "children") {
+						iv = identVar(info, ie.Index)
+					}
+					return true
+				})
+				if iv == nil {
+					return true
+				}
+				def := singleDefBefore(info, au.Body, iv, f.Pos())
+				if def == nil {
+					return true
+				}
+				d := ast.Unparen(def)
+				for {
+					cv, ok := d.(*ast.CallExpr)
+					if !ok || !isConversion(info, cv) || len(cv.Args) != 1 {
+						break
+					}
+					d = ast.Unparen(cv.Args[0])
+				}
+				tv, isConst := info.Types[d]
+				if !isConst || tv.Value == nil {
+					return true
+				}
+				k2 := k.Struct.Obj().Name() + " free-slot scan starts at the first slot"
+				if tv.Value.ExactString() == "0" {
+					c.r.ok("R37", k2, m.pos(f.Pos()), iv.Name()+" starts at 0", "C10", "C01", "C11")
+				} else {
+					c.r.bad("R37", k2, m.pos(def.Pos()), fmt.Sprintf("the scan for a free child slot starts at slot %s: the slots before it are never reused, and when they are the only free ones the scan runs off the children array (index out of range on an insert after deletes)", tv.Value.ExactString()), "C10", "C01", "C11")
+				}
+				return true
+			})
+		}
 		key := k.Struct.Obj().Name() + " slot allocation agrees with how deleteChild vacates slots"
 		switch {
 		case slotKind == "":
@@ -1313,6 +1443,8 @@ func ruleNodeLayer(c *Ctx) {
 		_ = mutableType
 		if written == "" {
 			c.r.ok("R30", key, m.pos(v.Pos()), "never stored to, appended to or address-taken in any function", props...)
+		} else if m.ReadOnlyTables[v] {
+			c.r.ok("R30", key, m.pos(v.Pos()), "a table that is only read: its address is taken only to define local pointers to one element, through which nothing is stored and which are handed to no call (tableconst.go)", props...)
 		} else {
 			c.r.bad("R30", key, written, "package-level mutable state shared by all trees without synchronisation", props...)
 		}
@@ -1486,4 +1618,47 @@ func singleDefBefore(info *types.Info, body ast.Node, v *types.Var, pos token.Po
 		return true
 	})
 	return out
+}
+
+// relinkCall: the statement calls a function of the package that publishes a new reference
+// through the slot it is given (ref.replace(kind, ptr, old): *ref = nodeRef{pointer: ptr, tag: kind}
+// in its body, ref its receiver or a *nodeRef parameter).
+func (c *Ctx) relinkCall(st ast.Stmt) bool {
+	info := c.m.Info
+	es, ok := st.(*ast.ExprStmt)
+	if !ok {
+		return false
+	}
+	call, ok := es.X.(*ast.CallExpr)
+	if !ok {
+		return false
+	}
+	cu := c.m.calleeUnit(call)
+	if cu == nil || cu.Lit != nil || cu.Body == nil || cu.Decl == nil {
+		return false
+	}
+	found := false
+	ast.Inspect(cu.Body, func(n ast.Node) bool {
+		as, ok := n.(*ast.AssignStmt)
+		if !ok || len(as.Lhs) != 1 || len(as.Rhs) != 1 {
+			return true
+		}
+		se, ok := ast.Unparen(as.Lhs[0]).(*ast.StarExpr)
+		if !ok || !c.isNodeRefType(info.TypeOf(se)) {
+			return true
+		}
+		id, ok := ast.Unparen(se.X).(*ast.Ident)
+		if !ok {
+			return true
+		}
+		if _, _, isLit := c.refLitTagAny(as.Rhs[0]); !isLit {
+			return true
+		}
+		// receiver or parameter of the helper
+		if pi := c.m.paramIndex(cu, id); pi != -1 {
+			found = true
+		}
+		return true
+	})
+	return found
 }
